@@ -345,9 +345,10 @@ type engineOpts struct {
 	updown            bool // after the up run, execute the reverse statements of a reversible plan (mode updown)
 	file, fk          bool
 	rows              []rowSpec
-	withModel         bool // write a model case (else oracle only)
-	viaAtlas          bool // create A through Atlas' own plan from the empty schema (no uniques then)
-	viaAtlasInspected bool // ... and the desired state of that first apply is the inspected form of A (numeric fk symbols become constraint names)
+	withModel         bool      // write a model case (else oracle only)
+	viaAtlas          bool      // create A through Atlas' own plan from the empty schema (no uniques then)
+	viaAtlasInspected bool      // ... and the desired state of that first apply is the inspected form of A (numeric fk symbols become constraint names)
+	fill              *nullFill // class set-notnull-default (notnull.go): the apply must succeed and the NULLs must hold the default
 }
 
 // engineCase runs one (A, B) pair on a real database; returns false when the case was unusable.
@@ -576,6 +577,16 @@ func (c *ctx) engineCase(a, b Schema, desc string, o engineOpts) {
 	if len(cs) > 0 {
 		c.w.NonTrivial(showSchemaChanges(cs, nil))
 	}
+	if o.fill != nil {
+		if aerr != nil {
+			c.w.Violation(id, "notnull-default-failed", ic+fmt.Sprintf("a nullable column with a DEFAULT becomes NOT NULL on a table holding NULLs: the plan has to replace them by the default (IFNULL), but applying it fails: %v ; diff=%s [%s; table %s column %s]", aerr, showSchemaChanges(cs, nil), desc, o.fill.table, o.fill.col))
+			finish()
+			return
+		}
+		if msg := l.checkFill(*o.fill); msg != "" {
+			c.w.Violation(id, "notnull-default-rows", ic+fmt.Sprintf("a nullable column with a DEFAULT became NOT NULL on a table holding NULLs: %s ; diff=%s [%s; table %s column %s]", msg, showSchemaChanges(cs, nil), desc, o.fill.table, o.fill.col))
+		}
+	}
 	switch {
 	case aerr != nil && len(o.rows) > 0:
 		// a populated database: rows may legitimately make a statement fail; any other failure is a violation
@@ -645,6 +656,16 @@ func runEngine(c *ctx) {
 		}
 		noNull = nil
 		c.engineCase(a, b, d+"+rows", o)
+	}
+	// populated: a nullable column with a DEFAULT becomes NOT NULL over NULLs (notnull.go); the type variant has no model
+	nn := 24
+	if c.thorough {
+		nn = 400
+	}
+	for i := 0; i < nn; i++ {
+		if a, b, rows, fill, d, ok := pg.notnullDefault([]int{0, 2, 3}[i%3]); ok && simpleDefaults(a) && simpleDefaults(b) {
+			c.engineCase(a, b, d, engineOpts{file: i%4 == 0, fk: i%2 == 0, withModel: true, rows: rows, fill: &fill})
+		}
 	}
 	for i := 0; i < n; i++ {
 		a, b, d := c.g.pair()
@@ -733,6 +754,16 @@ func runOracle(c *ctx) {
 			o.rows = append(o.rows, genRows(c.g, t)...)
 		}
 		c.engineCase(a, b, "border:"+kind+"+rows", o)
+	}
+	// populated: a nullable column with a DEFAULT becomes NOT NULL over NULLs, all four variants, any default (notnull.go)
+	nn := 60
+	if c.thorough {
+		nn = 2000
+	}
+	for i := 0; i < nn; i++ {
+		if a, b, rows, fill, d, ok := c.g.notnullDefault(i % 4); ok {
+			c.engineCase(a, b, d, engineOpts{file: i%3 == 0, fk: i%2 == 0, rows: rows, fill: &fill, viaAtlas: i%5 == 4})
+		}
 	}
 	// one stream per open known finding: the witnesses must still fail (they print KNOWN-FINDING), and
 	// any other violation on them still raises
